@@ -3,8 +3,6 @@ package main
 import (
 	"bytes"
 	"crypto/ecdh"
-	"crypto/mlkem"
-	"crypto/mlkem/mlkemtest"
 	"fmt"
 
 	"github.com/tink-crypto/tink-go/v2/aead/aesctrhmac"
@@ -145,52 +143,11 @@ func hpkeSection(x *h.X) {
 		x.Fail("construct", "HPKE %v: %v", kem, err)
 		return
 	}
-	pkR := pubKey.(*hpke.PublicKey).PublicKeyBytes()
+	_ = pubKey
 	pre, pre2 := ref.Prefix(v, id), ref.Prefix(v, id2)
 	desc := fmt.Sprintf("HPKE %v/%v/%v %v", kem, suites[si].kdf, suites[si].aead, v)
 	x.NonTrivial()
 	x.Outcome("hpke/" + kem.name)
-
-	// exact(): the encapsulation as the public derandomized function of the drawn bytes, where one exists
-	exact := func(stream, encap []byte, cfg string) {
-		switch kem.name {
-		case "DHKEM-X25519":
-			if len(stream) != 32 || !bytes.Equal(encap, x25519Public(stream)) {
-				x.Fail("enc-not-function-of-draw", "%s: enc %x is not X25519(drawn %x, 9)", cfg, encap, stream)
-			}
-		case "ML-KEM-768", "ML-KEM-1024":
-			var want []byte
-			if len(stream) == 32 {
-				if kem.name == "ML-KEM-768" {
-					if ek, err := mlkem.NewEncapsulationKey768(pkR); err == nil {
-						_, want, _ = mlkemtest.Encapsulate768(ek, stream)
-					}
-				} else {
-					if ek, err := mlkem.NewEncapsulationKey1024(pkR); err == nil {
-						_, want, _ = mlkemtest.Encapsulate1024(ek, stream)
-					}
-				}
-			}
-			if !bytes.Equal(encap, want) {
-				x.Fail("enc-not-function-of-draw", "%s: enc %s is not ML-KEM.Encaps_internal(ek, m = drawn %x)", cfg, tk.Hex(encap), stream)
-			}
-		case "X-Wing":
-			okx := false
-			if len(stream) == 64 {
-				if ek, err := mlkem.NewEncapsulationKey768(pkR[:mlkem.EncapsulationKeySize768]); err == nil {
-					for _, sp := range [][2][]byte{{stream[:32], stream[32:]}, {stream[32:], stream[:32]}} { // (m, ekX) in either draw order
-						_, ctM, _ := mlkemtest.Encapsulate768(ek, sp[0])
-						if bytes.Equal(encap[:1088], ctM) && bytes.Equal(encap[1088:], x25519Public(sp[1])) {
-							okx = true
-						}
-					}
-				}
-			}
-			if !okx {
-				x.Fail("enc-not-function-of-draw", "%s: enc is not ML-KEM-768.Encaps_internal(m) || X25519(ekX, 9) for the 64 drawn bytes %x", cfg, stream)
-			}
-		}
-	}
 
 	// L2/L3/L4 on the counter tape: history E E' E (same, different plaintext) then two recipients interleaved
 	e.load(cCounter)
@@ -217,9 +174,7 @@ func hpkeSection(x *h.X) {
 		if total(ds) < kem.draw {
 			x.Fail("short-draw", "%s: only %d bytes of entropy drawn for the encapsulation, %d needed", cfg, total(ds), kem.draw)
 		}
-		if i != 3 && i != 5 { // exact() knows the first recipient's public key only
-			exact(stream, encap, cfg)
-		}
+		_ = stream
 		encaps = append(encaps, encap)
 	}
 	distinct(x, "encapsulation-repeats", desc, "encapsulated keys", encaps)
@@ -253,10 +208,25 @@ func hpkeSection(x *h.X) {
 		if !ok {
 			return
 		}
-		exact(stream, encap, cfg)
+		_ = stream
 		images = append(images, encap)
 	}
-	distinct(x, "enc-ignores-drawn-byte", desc, "encapsulations under tapes differing in one drawn byte (index 0 = unmodified tape)", images)
+	// full length, tolerant form: HOW the ephemeral secret is made from the drawn bytes is the implementation's business
+	// (verbatim scalar, DeriveKeyPair(random), rejection sampling, guard bytes); at least kem.draw drawn bytes must each
+	// influence the encapsulation, bytes beyond that may be surplus
+	insensitive := 0
+	for _, im := range images[1:] {
+		if bytes.Equal(im, images[0]) {
+			insensitive++
+		}
+	}
+	drawn := 0
+	for _, d := range firstDs {
+		drawn += d.N
+	}
+	if surplus := drawn - kem.draw; insensitive > surplus && insensitive > 0 {
+		x.Fail("enc-ignores-drawn-byte", "%s: %d of %d tested drawn bytes do not influence the encapsulation although only %d drawn bytes are surplus (%d drawn, %d needed)", desc, insensitive, len(images)-1, max(surplus, 0), drawn, kem.draw)
+	}
 }
 
 // ---------------------------------------------------------------------------------------------------
@@ -364,12 +334,15 @@ func eciesSection(x *h.X) {
 		iv = rest[:dem.iv]
 		// the ephemeral scalar comes from (at least) one cv.n-byte draw; the DEM IV must be a contiguous run of the
 		// OTHER bytes drawn in this call (drawing more entropy than is used is harmless and not judged)
+		// (the scalar may also come from a LONGER draw reduced mod n, or from several candidates)
 		var scalarDraws int
 		var other []byte
 		for _, d := range ds {
-			if d.N == cv.n {
+			if d.N >= cv.n && (dem.iv == 0 || !bytes.Contains(e.tp.Bytes(d.Off, d.N), iv) || d.N == cv.n) {
 				scalarDraws++
-				continue
+				if d.N == cv.n {
+					continue
+				}
 			}
 			other = append(other, e.tp.Bytes(d.Off, d.N)...)
 		}
@@ -385,7 +358,7 @@ func eciesSection(x *h.X) {
 			x.Fail("dem-iv-not-drawn-bytes", "%s: DEM IV %x is not a draw of this call (draws %v)", cfg, iv, ds)
 		}
 		if scalarDraws < 1 {
-			x.Fail("short-draw", "%s: no %d-byte draw for the ephemeral key (draws %v)", cfg, cv.n, ds)
+			x.Fail("short-draw", "%s: no draw of at least %d bytes for the ephemeral key (draws %v)", cfg, cv.n, ds)
 		}
 		return point, iv, ds, true
 	}
@@ -422,15 +395,17 @@ func eciesSection(x *h.X) {
 	// not valid scalars), so the IV positions are exercised by flipping every IV byte of the counter stream.
 	images := [][]byte{points[0]}
 	var scalarTargets, ivTargets []int
+	scalarSurplus := 0
 	for _, d := range firstDs {
 		db := e.tp.Bytes(d.Off, d.N)
 		isIV := dem.iv > 0 && d.N == dem.iv && bytes.Equal(db, ivs[0])
 		switch {
-		case d.N == cv.n && !isIV:
-			// a scalar candidate draw: every byte of it must influence the ephemeral key
+		case d.N >= cv.n && !isIV && (dem.iv == 0 || d.N == cv.n || !bytes.Contains(db, ivs[0])):
+			// a scalar source draw: at least cv.n of its bytes must influence the ephemeral key
 			for j := 0; j < d.N; j++ {
 				scalarTargets = append(scalarTargets, d.Off+j)
 			}
+			scalarSurplus += d.N - cv.n
 		case dem.iv > 0:
 			// the draw carrying the DEM IV (possibly with surplus bytes that are drawn but unused, which is harmless)
 			if i := bytes.Index(db, ivs[0]); i >= 0 {
@@ -461,7 +436,15 @@ func eciesSection(x *h.X) {
 		}
 		images = append(images, p)
 	}
-	distinct(x, "enc-ignores-drawn-byte", desc, "ephemeral public keys under tapes differing in one drawn scalar byte (index 0 = unmodified tape)", images)
+	insensitive := 0
+	for _, im := range images[1:] {
+		if bytes.Equal(im, images[0]) {
+			insensitive++
+		}
+	}
+	if insensitive > scalarSurplus {
+		x.Fail("enc-ignores-drawn-byte", "%s: %d of %d tested bytes of the ephemeral key's source draws do not influence the ephemeral public key although only %d bytes are surplus", desc, insensitive, len(images)-1, scalarSurplus)
+	}
 	for _, t := range ivTargets {
 		for _, m := range []byte{0x01, 0x80, 0xff} {
 			e.load(flipped(t, m))
